@@ -48,10 +48,11 @@ def cycleCountingAggregation( data, binSize=1.0 ):
         raise ValueError( "Input data should be [ value, count ] pairs")
 
     def getBinKey( value ):
-        key = binSize * int( value / binSize )
-        if ( value - key > key + binSize - value):
-            key += binSize
-        return key
+        # The centre is always binSize * index, so that one bin has one key
+        idx = int( value / binSize )
+        if ( value - binSize * idx > binSize * ( idx + 1 ) - value ):
+            idx += 1
+        return binSize * idx
 
     rstDict = defaultdict( int )
     for valueCount in data:
